@@ -138,6 +138,13 @@ impl<'a> Rt<'a> {
         Instant::now()
     }
 
+    /// Enter this host's runtime context. The paused (virtual) clock is only
+    /// visible from inside it; anywhere else tokio's `Instant::now()` reads
+    /// the real clock.
+    pub(crate) fn enter(&self) -> tokio::runtime::EnterGuard<'_> {
+        self.tokio.enter()
+    }
+
     // This method is called by [`Sim::run`], which iterates through all the
     // runtimes and ticks each one. The magic of this method is described in the
     // documentation for [`LocalSet::run_until`], but it may not be entirely
